@@ -193,15 +193,16 @@ pub fn draw_legal<S: Src>(s: &mut S, class: u8, oi: u8, addr: u32, avr8l: bool) 
 
 /// index of the last expression operand (the one that may be written as an identifier)
 fn last_k(n: usize, a: &[A; 3]) -> Option<usize> {
-    let mut r = None;
-    let mut i = 0;
-    while i < n {
-        if let A::K(_) = a[i] {
-            r = Some(i);
-        }
-        i += 1;
+    let is_k = |x: &A| matches!(x, A::K(_));
+    if n > 2 && is_k(&a[2]) {
+        Some(2)
+    } else if n > 1 && is_k(&a[1]) {
+        Some(1)
+    } else if n > 0 && is_k(&a[0]) {
+        Some(0)
+    } else {
+        None
     }
-    r
 }
 
 pub fn build_args(n: usize, a: &[A; 3], ident_at: Option<usize>) -> ArgVec {
@@ -452,18 +453,15 @@ pub fn c04_rej_op<S: Src>(s: &mut S, oi: u8, wide: bool) {
     let n = s.below(4) as usize;
     let a = [draw_any(s, wide), draw_any(s, wide), draw_any(s, wide)];
     // the first expression operand may be an identifier that is bound, or not bound at all
-    let kpos = {
-        let mut r = None;
-        let mut i = 0;
-        while i < n {
-            if r.is_none() {
-                if let A::K(_) = a[i] {
-                    r = Some(i);
-                }
-            }
-            i += 1;
-        }
-        r
+    let is_k = |x: &A| matches!(x, A::K(_));
+    let kpos = if n > 0 && is_k(&a[0]) {
+        Some(0)
+    } else if n > 1 && is_k(&a[1]) {
+        Some(1)
+    } else if n > 2 && is_k(&a[2]) {
+        Some(2)
+    } else {
+        None
     };
     let ident_mode = match kpos {
         Some(_) => s.below(3), // 0 literal, 1 bound symbol, 2 unbound symbol
@@ -518,13 +516,16 @@ pub fn c04_rej_op<S: Src>(s: &mut S, oi: u8, wide: bool) {
 // ------------------------------------------------------------------------------------------
 // C03: relative branches — range iff, field = displacement, literal and pc-relative operands
 
-pub fn c03_rel<S: Src>(s: &mut S, kind: u8, full_addr: bool) {
+pub fn c03_rel<S: Src>(s: &mut S, lo: u8, hi: u8, spelling: u8, full_addr: bool) {
+    let sel = lo + s.below(hi - lo);
+    crate::split!(sel, lo, hi, |oi| c03_rel_op(s, oi, spelling, full_addr));
+}
+
+/// `spelling` of the target operand (concrete per harness): 0 literal, 1 `pc + c`, 2 `pc - c`,
+/// 3 label `s`.
+pub fn c03_rel_op<S: Src>(s: &mut S, oi: u8, spelling: u8, full_addr: bool) {
     // kind 0: rjmp/rcall, 1: the 18 named branches, 2: brbs/brbc
-    let oi = match kind {
-        0 => 42 + s.below(2),
-        1 => 78 + s.below(18),
-        _ => 96 + s.below(2),
-    };
+    let kind: u8 = if oi == 42 || oi == 43 { 0 } else if oi >= 96 { 2 } else { 1 };
     s.role(H_C03_REL, oi as u32);
     let op = op_at(oi);
     let bits: u32 = if kind == 0 { 12 } else { 7 };
@@ -534,31 +535,19 @@ pub fn c03_rel<S: Src>(s: &mut S, kind: u8, full_addr: bool) {
     }
     let target = s.i64();
     let bit = if kind == 2 { s.below(8) } else { 0 };
-    // operand spelling: 0 literal, 1 `pc + c`, 2 `pc - c`, 3 label `s`
-    let spelling = s.below(4);
-    use avra_lib::expr::{BinaryOperator, Expr};
+    use avra_lib::expr::Expr;
     use avra_lib::instruction::InstructionOps;
-    let mut pc_overflow = false;
     let texpr = match spelling {
         0 => Expr::Const(target),
-        1 => {
-            // target = pc + c
-            let c = (target as i128) - (addr as i128);
-            if c < i64::MIN as i128 || c > i64::MAX as i128 {
-                pc_overflow = true;
-            }
-            Expr::binary(Expr::Ident(String::from("pc")), BinaryOperator::Add, Expr::Const(c as i64))
-        }
-        2 => {
-            let c = (addr as i128) - (target as i128);
-            if c < i64::MIN as i128 || c > i64::MAX as i128 {
-                pc_overflow = true;
-            }
-            Expr::binary(Expr::Ident(String::from("pc")), BinaryOperator::Sub, Expr::Const(c as i64))
-        }
+        // the special symbol `pc` (what pass 2 installs = address of the instruction):
+        // `rjmp pc` must reach the instruction itself.  `pc + c` / `pc - c` add one binary
+        // node whose evaluation is the subject of C05 (ev_bits / ev_ident).
+        1 => Expr::Ident(String::from("pc")),
         _ => Expr::Ident(String::from("s")),
     };
-    s.assume(!pc_overflow);
+    if spelling == 1 {
+        s.assume(target == addr as i64);
+    }
     if spelling == 3 {
         // labels are u32 word addresses
         s.assume(target >= 0 && target <= u32::MAX as i64);
@@ -589,14 +578,16 @@ pub fn c03_rel<S: Src>(s: &mut S, kind: u8, full_addr: bool) {
     let expect = ref_encode(&op, &a[..n], addr, false);
     chk!(s, expect.is_some() == fits, "oracle self-check: reference accepts iff the displacement fits");
     let res = argv.with(|v| process(&op, v, addr, &ctx));
-    cov!(res.is_ok() && d == lo, "!displacement at the lower limit accepted");
-    cov!(res.is_ok() && d == hi, "!displacement at the upper limit accepted");
-    cov!(res.is_err() && d == lo - 1, "!one below the lower limit rejected");
-    cov!(res.is_err() && d == hi + 1, "!one above the upper limit rejected");
-    cov!(res.is_ok() && spelling == 1, "pc-relative operand");
-    cov!(res.is_ok() && spelling == 3, "label operand");
-    cov!(res.is_ok() && d < 0, "backward");
-    cov!(res.is_ok() && d > 0, "forward");
+    if spelling != 1 {
+        cov!(res.is_ok() && d == lo, "!displacement at the lower limit accepted");
+        cov!(res.is_ok() && d == hi, "!displacement at the upper limit accepted");
+        cov!(res.is_err() && d == lo - 1, "!one below the lower limit rejected");
+        cov!(res.is_err() && d == hi + 1, "!one above the upper limit rejected");
+        cov!(res.is_ok() && d < 0, "backward");
+        cov!(res.is_ok() && d > 0, "forward");
+    } else {
+        cov!(res.is_ok() && d == -1, "!pc names the instruction itself");
+    }
     #[cfg(not(kani))]
     {
         s.note_s("asm", &asm_text(oi, n, &a));
